@@ -1,5 +1,6 @@
 //! tvv — property-based / fuzzing verification harness for tantivy (see /verif/DESIGN.md).
 pub mod engine;
+pub mod hist;
 pub mod known;
 pub mod props;
 pub mod simdir;
